@@ -14,7 +14,7 @@ from ..worlds import relay
 ID = "C06"
 LEVEL = "exploration"
 CHUNK = 40
-BUDGET = {"quick": {"runs": 2500, "wall": 150}, "thorough": {"runs": 100000, "wall": 3000}}
+BUDGET = {"quick": {"runs": 2500, "wall": 150}, "thorough": {"runs": 100000, "wall": 1200}}
 RULE = ("1-2 submitting connections x 4-16 EVENT frames: valid events (regular, replaceable chains, "
         "deletions, ephemeral), byte-identical resubmissions, invalid ones (bad signature, id not the "
         "hash, mutated fields, wrong types, missing fields), tag values of 0-600 bytes, created_at / kind "
